@@ -1,7 +1,7 @@
 T = "GeomV.C03."
 CFG = {
     "id": "C03",
-    "lean_modules": ["GeomV.C03.Proofs"],
+    "lean_modules": ["GeomV.C03.Proofs", "GeomV.C03.ProofsScale"],
     "exe": "geomv_c03",
     "go_cmd": "c03",
     "stages": ["go:gen", "go:impl", "lean:judge"],
@@ -13,7 +13,9 @@ CFG = {
         "op_agrees_area", "op_agrees_centroid", "op_centroid_unclosed_differs", "C03_mcentroid_unfixed_wrong",
         "C03_mcentroid_ring", "C03_mcentroid_spec_invariant", "C03_mcentroid",
         "distPointToSegment_min", "C03_length", "C03_length_multi", "C03_distance", "C03_distance_multi",
-        "C03_buffer", "C03_buffer_panics"]],
+        "C03_buffer", "C03_buffer_panics",
+        "polygonCentroidCore_scale", "opCentroidCore_scale", "C03_centroid_guard", "C03_opCentroid_guard",
+        "C03_centroid_valid_guarded", "op_agrees_centroid_guarded", "C03_mcentroid_guarded"]],
     "trusted_base": [
         "Lean 4.33.0 kernel; axioms of every theorem printed by #print axioms must be within {propext, Classical.choice, Quot.sound}",
         "Mathlib v4.33 modules imported by GeomV/C03/Lemmas*.lean and Proofs.lean (checked by the same kernel)",
@@ -27,7 +29,7 @@ CFG = {
     "rule": "valid integer-grid polygons (rectangle/star/comb/diamond/concave-star shells, 0-4 holes of 5 shapes placed in disjoint cells, "
             "validated exactly) under per-ring reversal x rotation {0,1,mid,last} x closed/unclosed orbits (full orbit for <=2 rings, systematic+sampled above), "
             "their images under random invertible affine maps to arbitrary doubles, multipolygons of 1-4 disjoint members (+ island in a hole), "
-            "every base also at dyadic scales 2^-14..2^-30 and 2^+20, areas at 2^±400/±500, centroids at 2^±300 (and four corpus shapes at 2^±400/±600: known finding); ring order permuted (hole first) judged by the Spec; line strings, query points and buffers also at 2^±511..2^±900; receivers laid out as separate allocations, as windows of one packed buffer, or as prefix re-slices (receiver compared bit for bit before/after every call); a fixed corpus of degenerate/invalid shapes; line strings with query points on vertices, on segments, projecting onto endpoints, beyond ends; "
+            "every base also at dyadic scales 2^-14..2^-30 and 2^+20, areas at 2^±400/±500, centroids at 2^±300 (rescaled branch of fix 4edcec2) and four corpus shapes at 2^±400/±600; ring order permuted (hole first) judged by the Spec; polygons whose rings touch in single points (hole vertex on a side of a rectangle / on the extreme vertex of a diamond / on a slanted edge, two holes touching, a shell touched in every vertex) judged by Spec.ValidPolyT under full or sampled orbits; query points interpolated on segment interiors and pushed off by 0, 1e-12 .. 1e-3 of the segment length with non-dyadic coordinates k/10, k/7, k/3 and random floats (distance tolerance 1e-9 d + 1e-12 max|coordinate|); line strings, query points and buffers also at 2^±511..2^±900; receivers laid out as separate allocations, as windows of one packed buffer, or as prefix re-slices (receiver compared bit for bit before/after every call); a fixed corpus of degenerate/invalid shapes; line strings with query points on vertices, on segments, projecting onto endpoints, beyond ends; "
             "buffers with 3..720 segments and invalid arguments. distinct = distinct input line; non-trivial = verdict class not '*-skipped'",
     "timeout": {"quick": 900, "thorough": 3000},
 }
